@@ -72,6 +72,14 @@ A_CALLS: dict[str, dict[str, Any]] = {
     "getAllTrials(s0)": {"op": "getAllTrials", "sid": 0, "states": None},
     "getTrial(t0)": {"op": "getTrial", "tid": 0},
     "getBestTrial(s0)": {"op": "getBestTrial", "sid": 0},
+    # a finished trial (a cached client answers it from its cache: no SQL event then) and the lookup by number
+    "getTrial(t3)": {"op": "getTrial", "tid": 3},
+    "getTrialIdFromNumber(s0,3)": {"op": "getTrialIdFromNumber", "sid": 0, "number": 3},
+    # the heartbeat sweep: fail_stale_trials' claim `set_trial_state_values(FAIL)` against the worker's own finish, and the two
+    # heartbeat calls (outside the contract model: executed, not part of the history given to `lin`, judged by `hb_verdict`)
+    "fail(t1)": {"op": "setTrialStateValues", "tid": 1, "state": 3, "values": None},
+    "recordHeartbeat(t0)": {"op": "recordHeartbeat", "tid": 0},
+    "getStaleTrialIds(s0)": {"op": "getStaleTrialIds", "sid": 0},
 }
 B_WRITERS: dict[str, dict[str, Any]] = {
     "createTrial": {"op": "createTrial", "sid": 0, "tmpl": None},
@@ -89,6 +97,9 @@ B_WRITERS: dict[str, dict[str, Any]] = {
     "createStudy(new)": {"op": "createStudy", "name": "new", "dirs": [2]},
     "deleteStudy(s0)": {"op": "deleteStudy", "sid": 0},
     "deleteStudy(s1)": {"op": "deleteStudy", "sid": 1},
+    "fail(t1)": {"op": "setTrialStateValues", "tid": 1, "state": 3, "values": None},
+    "recordHeartbeat(t0)": {"op": "recordHeartbeat", "tid": 0},
+    "recordHeartbeat(t1)": {"op": "recordHeartbeat", "tid": 1},
 }
 B_READERS: dict[str, dict[str, Any]] = {
     "getAllTrials(s0)": {"op": "getAllTrials", "sid": 0, "states": None},
@@ -100,6 +111,8 @@ B_READERS: dict[str, dict[str, Any]] = {
     "getBestTrial(s0)": {"op": "getBestTrial", "sid": 0},
     "getAllStudies": {"op": "getAllStudies"},
     "getTrialIdFromNumber(s0,4)": {"op": "getTrialIdFromNumber", "sid": 0, "number": 4},
+    "getTrial(t3)": {"op": "getTrial", "tid": 3},
+    "getStaleTrialIds(s0)": {"op": "getStaleTrialIds", "sid": 0},
 }
 B_CALLS = {**B_WRITERS, **B_READERS}
 # quick tier: for every A the calls of B that touch the same rows / the same decision, plus three readers
@@ -120,19 +133,31 @@ QUICK_B: dict[str, list[str]] = {
     "getAllTrials(s0)": ["complete(t0)", "createTrial(tmpl COMPLETE)", "setTrialParam(t0,x:Float)", "setTrialUserAttr(t0,k0)"],
     "getTrial(t0)": ["complete(t0)", "setTrialParam(t0,x:Float)"],
     "getBestTrial(s0)": ["complete(t1)", "createTrial(tmpl COMPLETE)"],
+    "getTrial(t3)": ["deleteStudy(s0)", "complete(t0)"],
+    "getTrialIdFromNumber(s0,3)": ["createTrial", "deleteStudy(s0)"],
+    "fail(t1)": ["complete(t1)", "recordHeartbeat(t1)", "getStaleTrialIds(s0)", "getTrial(t3)"],
+    "recordHeartbeat(t0)": ["recordHeartbeat(t0)", "complete(t0)", "deleteStudy(s0)", "getStaleTrialIds(s0)"],
+    "getStaleTrialIds(s0)": ["complete(t1)", "fail(t1)", "recordHeartbeat(t1)", "recordHeartbeat(t0)"],
 }
+HB_OPS = ("recordHeartbeat", "getStaleTrialIds")
+HB_MUTATING = ("recordHeartbeat",)
 BUSY_TIMEOUT = 0.05
 
 
 def _is_dml(stmt: str) -> bool:
-    return stmt.lstrip()[:6].upper() in ("INSERT", "UPDATE", "DELETE", "REPLAC")
+    """does this statement make the connection hold SQLite's write lock until the transaction ends?  A DML statement (pysqlite's
+    legacy mode begins the transaction there), or an explicit `BEGIN IMMEDIATE` / `BEGIN EXCLUSIVE` (a storage that takes the lock when
+    the transaction begins: then A holds it for its whole call and only readers can be placed).  Detected per statement of the run."""
+    head = " ".join(stmt.split()[:2]).upper()
+    return head[:6] in ("INSERT", "UPDATE", "DELETE", "REPLAC") or head in ("BEGIN IMMEDIATE", "BEGIN EXCLUSIVE")
 
 
 def _mk(url: str, cached: bool) -> tuple[Any, Any]:
     from optuna.storages import RDBStorage
     from optuna.storages._cached_storage import _CachedStorage
 
-    rdb = RDBStorage(url, skip_compatibility_check=True, skip_table_creation=True, engine_kwargs={"connect_args": {"timeout": BUSY_TIMEOUT}})
+    rdb = RDBStorage(url, skip_compatibility_check=True, skip_table_creation=True, engine_kwargs={"connect_args": {"timeout": BUSY_TIMEOUT}},
+                     heartbeat_interval=60, grace_period=120)
     return (_CachedStorage(rdb) if cached else rdb), rdb
 
 
@@ -153,6 +178,12 @@ class Template:
             if r.get("k") == "err":
                 raise core.InfraError("sql placement: set-up call %s failed: %s" % (op, r))
         self.maps = (dict(ex.s2r), dict(ex.t2r), dict(ex.r2s), dict(ex.r2t), dict(ex.trial_study))
+        # trial 1 has a heartbeat that is a day old: `_get_stale_trial_ids(s0)` = [trial 1] as long as it is RUNNING
+        import sqlalchemy
+
+        st.record_heartbeat(ex.rt(1))
+        with st.engine.begin() as conn:
+            conn.execute(sqlalchemy.text("UPDATE trial_heartbeats SET heartbeat = datetime('now', '-1 day')"))
         st.engine.dispose()
         self.n = 0
 
@@ -171,6 +202,39 @@ def _exec_with_maps(storage: Any, maps: Any, share: K.Exec | None = None) -> K.E
     if share is None:
         ex.s2r.update(maps[0]); ex.t2r.update(maps[1]); ex.r2s.update(maps[2]); ex.r2t.update(maps[3]); ex.trial_study.update(maps[4])  # noqa: E702
     return ex
+
+
+def _run_op(ex: K.Exec, rdb: Any, op: dict[str, Any]) -> dict[str, Any]:
+    """K.Exec.run, plus the two heartbeat calls (on the RDBStorage itself: `_CachedStorage` only forwards them)"""
+    if op["op"] not in HB_OPS:
+        return ex.run(op)
+    try:
+        if op["op"] == "recordHeartbeat":
+            rdb.record_heartbeat(ex.rt(op["tid"]))
+            return {"k": "unit"}
+        ids = rdb._get_stale_trial_ids(ex.rs(op["sid"]))
+        return {"k": "ids", "l": sorted(ex.r2t.get(i, "?%d" % i) for i in ids)}
+    except Exception as e:  # noqa: BLE001
+        return {"k": "err", "e": K.err_name(e), "msg": str(e)[:120]}
+
+
+def hb_verdict(results: list[dict[str, Any]]) -> str | None:
+    """the heartbeat calls are outside the contract model: `record_heartbeat` must return normally whatever happens to the trial
+    meanwhile; `_get_stale_trial_ids` must answer a list of trials that were RUNNING with the aged heartbeat before or after the
+    other call (set-up: only trial 1 can be stale) - never raise"""
+    for res in results:
+        op, raw = res["op"], res["raw"]
+        if op["op"] == "recordHeartbeat" and raw.get("k") != "unit":
+            return "record_heartbeat raised %s: %s" % (raw.get("e"), raw.get("msg"))
+        if op["op"] == "getStaleTrialIds":
+            if raw.get("k") != "ids":
+                # the study may have been deleted by the other call: KeyError is then an answer of a sequential order
+                if raw.get("e") == "KeyError" and any(r["op"]["op"] == "deleteStudy" for r in results):
+                    continue
+                return "_get_stale_trial_ids raised %s: %s" % (raw.get("e"), raw.get("msg"))
+            if any(i != 1 for i in raw["l"]):
+                return "_get_stale_trial_ids answered %s: only trial 1 has an expired heartbeat" % raw["l"]
+    return None
 
 
 def run_one(tmpl: Template, tmp: str, a_name: str, placements: list[tuple[str, int]], cached_a: bool = False, cached_b: bool = False) -> dict[str, Any]:
@@ -204,14 +268,14 @@ def run_one(tmpl: Template, tmp: str, a_name: str, placements: list[tuple[str, i
             b_name, k = todo.pop(0)
             i = len(state["placed"])
             b_op = B_CALLS[b_name]
-            if state["dml"] and b_op["op"] in K.MUTATING:
+            if state["dml"] and (b_op["op"] in K.MUTATING or b_op["op"] in HB_MUTATING):
                 state["skip"] = "A-holds-write-lock"
                 return
             state["clock"] += 1
             inv = state["clock"]
-            raw = ex_b[i].run(dict(b_op))
+            raw = _run_op(ex_b[i], others[i][1], dict(b_op))
             state["clock"] += 1
-            if raw.get("k") == "err" and "database is locked" in str(raw.get("msg", "")):
+            if locked or (raw.get("k") == "err" and "database is locked" in str(raw.get("msg", ""))):
                 state["skip"] = "database-is-locked"
                 return
             state["placed"].append({"b": b_name, "k": k, "held": state["dml"]})
@@ -230,18 +294,33 @@ def run_one(tmpl: Template, tmp: str, a_name: str, placements: list[tuple[str, i
     def h_rollback(conn: Any) -> None:
         on_event("ROLLBACK")
 
+    # `database is locked` is seen at the DBAPI level (RDBStorage wraps it into StorageInternalError, whose text does not name it):
+    # whoever meets it - the placed call or A itself - the placement was impossible under SQLite's locking; never a verdict
+    locked: list[str] = []
+
+    def h_error(context: Any) -> None:
+        if "database is locked" in str(context.original_exception) or "database table is locked" in str(context.original_exception):
+            locked.append(str(context.original_exception)[:80])
+
+    engines = [a_rdb.engine] + [o[1].engine for o in others]
+    for e_ in engines:
+        sqlalchemy.event.listen(e_, "handle_error", h_error)
     eng = a_rdb.engine
     sqlalchemy.event.listen(eng, "before_cursor_execute", h_stmt)
     sqlalchemy.event.listen(eng, "commit", h_commit)
     sqlalchemy.event.listen(eng, "rollback", h_rollback)
     try:
-        raw_a = ex0.run(dict(a_op))
+        raw_a = _run_op(ex0, a_rdb, dict(a_op))
     finally:
         sqlalchemy.event.remove(eng, "before_cursor_execute", h_stmt)
         sqlalchemy.event.remove(eng, "commit", h_commit)
         sqlalchemy.event.remove(eng, "rollback", h_rollback)
+        for e_ in engines:
+            sqlalchemy.event.remove(e_, "handle_error", h_error)
     try:
         out: dict[str, Any] = {"events": state["events"], "placed": state["placed"]}
+        if locked and state["skip"] is None:
+            state["skip"] = "database-is-locked(A)"
         if state["skip"] is not None:
             out["skip"] = state["skip"]
             return out
@@ -253,8 +332,11 @@ def run_one(tmpl: Template, tmp: str, a_name: str, placements: list[tuple[str, i
             return out
         state["clock"] += 1
         results.insert(0, {"thread": 0, "inv": 1, "ret": state["clock"], "raw": raw_a, "op": a_op})
+        out["hb"] = hb_verdict(results)
         calls = []
         for res in results:
+            if res["op"]["op"] in HB_OPS:
+                continue  # not a call of the contract model: judged by hb_verdict, transparent for the linearizability search
             raw, op = res["raw"], res["op"]
             obs: Any
             if raw.get("k") == "id":
@@ -294,7 +376,8 @@ def classify(drv: core.Driver, req: dict[str, Any]) -> dict[str, Any]:
         return {"kind": "ok", "order": ans["order"], "explored": ans["explored"]}
     if "ok" not in ans:
         return {"kind": "driver", "why": json.dumps(ans)[:400]}
-    req2 = dict(req, calls=[c for c in req["calls"] if not c["op"]["op"].startswith("get")])
+    from verif.props.c03 import without_reads
+    req2 = dict(req, calls=without_reads(req["calls"]))
     ans2 = drv.ask(req2) if len(req2["calls"]) < len(req["calls"]) else {"ok": False}
     sub = "torn-read" if ans2.get("ok") else "not-linearizable"
     if sub == "not-linearizable":
@@ -327,9 +410,11 @@ def _pair(tmpl: Template, tmp: str, drv: core.Driver, a_name: str, b_name: str, 
                 rec.update(kind="skip", why=res["skip"])
             else:
                 rec.update(classify(drv, res["req"]))
+                if rec["kind"] == "ok" and res.get("hb"):
+                    rec.update(kind="violation", sub="heartbeat-call", explored=rec.get("explored", 0), writes_linearize=False, hb=res["hb"])
                 if rec["kind"] == "violation":
                     rec["observed"] = res["req"]["calls"]
-                    rec["msgs"] = res["msgs"]
+                    rec["msgs"] = res["msgs"] + ([res["hb"]] if res.get("hb") else [])
             out.append(rec)
         k += 1
     return out
@@ -463,6 +548,8 @@ def replay_case(chk: core.Check, w: dict[str, Any]) -> int:
             print("not reproduced (placement impossible: %s)" % res["skip"])
             return 0
         c = classify(drv, res["req"])
+        if c["kind"] == "ok" and res.get("hb"):
+            c = {"kind": "violation", "sub": "heartbeat-call: " + res["hb"]}
     finally:
         drv.close()
     if c["kind"] == "violation":
